@@ -178,7 +178,8 @@ func (tw *timeoutWriter) WriteHeader(code int) {
 }
 
 func checkWriteHeaderCode(code int) {
-	if code < 100 || code > 599 {
+	// 与 net/http 一致：三位数的状态码都可写出（100..999）
+	if code < 100 || code > 999 {
 		panic(fmt.Sprintf("无效的状态码 %v", code))
 	}
 }
